@@ -2,6 +2,7 @@
 //@serves C09 C10 C13 C14 C16 C17 C20
 //@assume SM9 parameters p, N, b = 5, P1 in the spec are a transcription of GM/T 0044.5 (compared with the code constants by ground lemmas in the units that use them)
 //@assume p and N are prime; G1, G2 are groups of order N under g1_add / g2_add; GT is a group of order N; the pairing symbol e9 is bilinear and non-degenerate (axioms ax9_*) - bilinearity of the implemented pairing itself is property C12 and is NOT claimed
+//@assume the twist E'(Fp2): y^2 = x^3 + 5u over Fp2 = Fp[u]/(u^2 + 2) and its generator P2 in the spec are a transcription of GM/T 0044.5 (P2 is compared with the code constant and checked against the curve equation by ground lemmas: lemma_params9_g2 here, lemma_p2_generator in unit sm9_g2); ax9_g2_closed / ax9_g2_assoc: E'(Fp2) is a group under the chord-and-tangent law g2_add
 //@include-spec sm2_math
 //@section spec
 use vstd::arithmetic::div_mod::*;
@@ -67,12 +68,61 @@ pub proof fn ax9_g1_assoc(a: Pt1, b: Pt1, c: Pt1) requires on_curve1(a), on_curv
 #[verifier::external_body]
 pub proof fn ax9_g1_order(k: int) requires k >= 0 ensures (g1_smul(k, G1P()) == Pt1::Inf) == (k % N9() == 0) { }
 
-// ---------------------------------------------------------------- Fp2 = Fp[u]/(u^2 + 2), G2 on the twist y^2 = x^3 + 5u, GT in Fp12: abstract
+// ---------------------------------------------------------------- Fp2 = Fp[u]/(u^2 + 2); G2 on the twist E': y^2 = x^3 + 5u over Fp2 (GM/T 0044.5); GT in Fp12: abstract
+// an element c0 + c1 u of Fp2 (u^2 = -2); canonical when both coefficients are in [0, p)
 pub struct F2 { pub c0: int, pub c1: int }
 pub enum Pt2 { Inf, Aff { x: F2, y: F2 } }
-pub uninterp spec fn on_curve2(q: Pt2) -> bool;
-pub uninterp spec fn G2P() -> Pt2;
-pub uninterp spec fn g2_add(a: Pt2, b: Pt2) -> Pt2;
+pub open spec fn m2_ok(a: F2) -> bool { 0 <= a.c0 < P9() && 0 <= a.c1 < P9() }
+pub open spec fn m2_zero() -> F2 { F2 { c0: 0, c1: 0 } }
+pub open spec fn m2_add(a: F2, b: F2) -> F2 { F2 { c0: (a.c0 + b.c0) % P9(), c1: (a.c1 + b.c1) % P9() } }
+pub open spec fn m2_sub(a: F2, b: F2) -> F2 { F2 { c0: (a.c0 - b.c0) % P9(), c1: (a.c1 - b.c1) % P9() } }
+pub open spec fn m2_neg(a: F2) -> F2 { F2 { c0: (P9() - a.c0) % P9(), c1: (P9() - a.c1) % P9() } }
+// (a0 + a1 u)(b0 + b1 u) = a0 b0 - 2 a1 b1 + (a0 b1 + a1 b0) u
+pub open spec fn m2_mul(a: F2, b: F2) -> F2 { F2 { c0: (a.c0 * b.c0 - 2 * (a.c1 * b.c1)) % P9(), c1: (a.c0 * b.c1 + a.c1 * b.c0) % P9() } }
+// inverse = conjugate / norm, norm = a0^2 + 2 a1^2 (total: the inverse of 0 is 0)
+pub open spec fn m2_inv(a: F2) -> F2 {
+    let d = inv_p9(a.c0 * a.c0 + 2 * (a.c1 * a.c1));
+    F2 { c0: (a.c0 * d) % P9(), c1: ((P9() - a.c1) * d) % P9() }
+}
+// the coefficient b' = 5u of the twist and the generator P2 = (xP2, yP2) of G2
+pub open spec fn B2() -> F2 { F2 { c0: 0, c1: 5 } }
+pub open spec fn P2X0() -> int { 0xf9b7213baf82d65bint + 0x1_0000_0000_0000_0000int * (0xee265948d19c17abint + 0x1_0000_0000_0000_0000int * (0xd2aab97fd34ec120int + 0x1_0000_0000_0000_0000int * 0x3722755292130b08int)) }
+pub open spec fn P2X1() -> int { 0x54806c11d8806141int + 0x1_0000_0000_0000_0000int * (0xf1dd2c190f5e93c4int + 0x1_0000_0000_0000_0000int * (0x597b6027b441a01fint + 0x1_0000_0000_0000_0000int * 0x85aef3d078640c98int)) }
+pub open spec fn P2Y0() -> int { 0x6215bba5c999a7c7int + 0x1_0000_0000_0000_0000int * (0x47efba98a71a0811int + 0x1_0000_0000_0000_0000int * (0x5f3170153d278ff2int + 0x1_0000_0000_0000_0000int * 0xa7cf28d519be3da6int)) }
+pub open spec fn P2Y1() -> int { 0x856dc76b84ebeb96int + 0x1_0000_0000_0000_0000int * (0x736a96fa347c8bdint + 0x1_0000_0000_0000_0000int * (0x66ba0d262cbee6edint + 0x1_0000_0000_0000_0000int * 0x17509b092e845c12int)) }
+pub open spec fn on_curve2(q: Pt2) -> bool {
+    match q { Pt2::Inf => true, Pt2::Aff { x, y } => m2_ok(x) && m2_ok(y) && m2_mul(y, y) == m2_add(m2_mul(m2_mul(x, x), x), B2()) }
+}
+pub open spec fn G2P() -> Pt2 { Pt2::Aff { x: F2 { c0: P2X0(), c1: P2X1() }, y: F2 { c0: P2Y0(), c1: P2Y1() } } }
+pub open spec fn g2_neg(a: Pt2) -> Pt2 { match a { Pt2::Inf => Pt2::Inf, Pt2::Aff { x, y } => Pt2::Aff { x, y: m2_neg(y) } } }
+// chord-and-tangent addition on E'(Fp2)
+pub open spec fn g2_add(a: Pt2, b: Pt2) -> Pt2 {
+    match (a, b) {
+        (Pt2::Inf, _) => b,
+        (_, Pt2::Inf) => a,
+        (Pt2::Aff { x: x1, y: y1 }, Pt2::Aff { x: x2, y: y2 }) =>
+            if x1 == x2 && m2_add(y1, y2) == m2_zero() { Pt2::Inf }
+            else {
+                let lam = if x1 == x2 { m2_mul(m2_add(m2_add(m2_mul(x1, x1), m2_mul(x1, x1)), m2_mul(x1, x1)), m2_inv(m2_add(y1, y1))) }
+                          else { m2_mul(m2_sub(y2, y1), m2_inv(m2_sub(x2, x1))) };
+                let x3 = m2_sub(m2_sub(m2_mul(lam, lam), x1), x2);
+                Pt2::Aff { x: x3, y: m2_sub(m2_mul(lam, m2_sub(x1, x3)), y1) }
+            }
+    }
+}
+// P2 lies on the twist
+pub proof fn lemma_params9_g2() ensures on_curve2(G2P()), 0 <= P2X0() < P9(), 0 <= P2X1() < P9(), 0 <= P2Y0() < P9(), 0 <= P2Y1() < P9()
+{
+    assert(0 <= P2X0() < P9() && 0 <= P2X1() < P9() && 0 <= P2Y0() < P9() && 0 <= P2Y1() < P9()) by(compute);
+    assert((P2Y0() * P2Y0() - 2 * (P2Y1() * P2Y1())) % P9()
+        == ((((P2X0() * P2X0() - 2 * (P2X1() * P2X1())) % P9()) * P2X0() - 2 * (((P2X0() * P2X1() + P2X1() * P2X0()) % P9()) * P2X1())) % P9() + 0) % P9()) by(compute);
+    assert((P2Y0() * P2Y1() + P2Y1() * P2Y0()) % P9()
+        == ((((P2X0() * P2X0() - 2 * (P2X1() * P2X1())) % P9()) * P2X1() + ((P2X0() * P2X1() + P2X1() * P2X0()) % P9()) * P2X0()) % P9() + 5) % P9()) by(compute);
+}
+#[verifier::external_body]
+pub proof fn ax9_g2_closed(a: Pt2, b: Pt2) requires on_curve2(a), on_curve2(b) ensures on_curve2(g2_add(a, b)) { }
+#[verifier::external_body]
+pub proof fn ax9_g2_assoc(a: Pt2, b: Pt2, c: Pt2) requires on_curve2(a), on_curve2(b), on_curve2(c) ensures g2_add(g2_add(a, b), c) == g2_add(a, g2_add(b, c)) { }
 pub open spec fn g2_smul(k: int, a: Pt2) -> Pt2 decreases k { if k <= 0 { Pt2::Inf } else { g2_add(g2_smul(k - 1, a), a) } }
 // an element of Fp12 as its 12 canonical coefficients (c0.c0.c0, c0.c0.c1, c0.c1.c0, ... in the code's nesting order)
 pub struct Gt { pub c: Seq<int> }
